@@ -12,6 +12,7 @@ PARTIAL = [
     "point = Cox-de Boor (tensor) sum is assembled through the span search for every parameter of the closed domain (cdb on the half-open domain; at the right end the recursion of the last span, cdbSpan, = left-limit convention), rational quotient included; the statement is about findSpanLinear - evaluation with find_span_binsearch selected is covered through C03/C17 span_search_choice under its tolerance hypothesis",
     "entry points: list = map of single, grid size / ordering / corners (curve, surface, volume) and the zeroth derivative of curves are Lean theorems about the model functions (curveGrid, surfaceGrid, volumeGrid, curveDers); the zeroth derivative of surfaces follows coordinatewise from C02 (k = l = 0); the object layer's dispatch to these functions is tied by correspondence + exact oracle only",
 ]
+PARTIAL.append("knot vectors with an empty last domain span are outside the model (theorems assume KnotsOk); the repaired step-back of the span searches (F-01b) is checked by the exact oracle only (stream empty-last-span: model line + oracle strictly inside the domain, kind end-left-limit without a model line at u = U_n - points, first derivatives, evaluate_list, sampled grid against the Cox-de Boor left limit; span_found_nonempty_of_knotsOk / span_found_empty_without_knotsOk in Props/C01.lean; the evaluation / derivative / grid ops of the driver answer ERR when the span the model finds is empty instead of printing x/0 = 0)")
 ASSUMPTIONS = ["parameters at the domain end are evaluated on the last non-empty span (left limit), as the library does"]
 
 
@@ -109,9 +110,122 @@ def gen(rng, tier):
         ps = [x] + [rng.choice([F(0), F(1, 3), F(1)]) for _ in S.dirs(d)[1:]]
         out.append(Case('single', "%s %s %s" % (OPS[d['kind']], S.args(d), " ".join(fr(x_) for x_ in ps)), dict(shape=d, params=ps),
                         tags=('full-multiplicity',)))
+    # empty-last-span (F-01b, repaired): knot vectors whose last domain span [U_{n-1}, U_n] is EMPTY - unclamped with a
+    # knot of multiplicity 2..p sitting exactly on the domain end, or the end knot repeated p+2 times (both accepted by
+    # knotvector.check) - in the (one) direction of a curve / in one direction of a surface / volume.  Strictly inside
+    # the domain: correspondence (model line) + oracle.  AT U_n: the model does not have the step back of the repaired
+    # span searches (its theorems assume KnotsOk) - no model line, the exact oracle alone demands the Cox-de Boor
+    # LEFT-LIMIT value (= the polynomial of the last non-empty span at U_n), points, first derivatives and the grid.
+    for _ in range(36 if tier == 'quick' else 400):
+        d, k = _empty_last_shape(rng)
+        ds = S.dirs(d)
+        p_, kv, n_ = ds[k]
+        G.count('empty_last_span', (d['kind'], 'dir%d' % k, 'p+2' if kv[n_] == kv[-1] else 'end-multiplicity'))
+        # (1) strictly inside (incl. interior knots and the domain start)
+        ps = S.rand_params(rng, d)
+        inner = sorted(set(x for x in kv[p_:n_ + 1] if x < kv[n_]))
+        ps[k] = rng.choice(inner) if rng.random() < .4 else kv[p_] + (kv[n_] - kv[p_]) * F(rng.randint(0, 99), 100)
+        kinds = ['single', 'list', 'ders0'] if d['kind'] != 'volume' else ['single', 'list']
+        kd = rng.choice(kinds)
+        data = dict(shape=d, params=ps)
+        if kd == 'list':
+            data['plist'] = [ps]; data['j'] = 0
+        out.append(Case(kd, "%s %s %s" % (OPS[d['kind']], S.args(d), " ".join(fr(x) for x in ps)), data, tags=('empty-last-span', 'inside')))
+        # (2) at the domain end of the special direction (other directions anywhere, ends included): oracle only
+        pe = S.rand_params(rng, d)
+        pe[k] = kv[n_]
+        sizes = [rng.randint(2, 5) for _ in ds]
+        out.append(Case('end-left-limit', None, dict(shape=d, params=pe, dir=k, sizes=sizes), tags=('empty-last-span', 'at-end')))
     # floating point: the requested sample size is honoured for every n (rounding of 1/delta)
     out.append(Case('float-sizes', None, dict(lo=2, hi=130 if tier == 'quick' else 400)))
     return out
+
+
+def _empty_last_shape(rng):
+    """(definition, index of the direction with the empty last span)"""
+    r = rng.random()
+    rat = rng.random() < .4
+    if r < .5:
+        p = rng.randint(1, 4)
+        kv, n = G.knots_empty_last(rng, p)
+        P = G.points(rng, n, rng.choice([2, 3]))
+        if rat:
+            P = G.homogeneous(P, G.weights(rng, n))
+        return dict(kind='curve', rat=rat, p=p, kv=kv, n=n, P=P, dim=len(P[0]) - (1 if rat else 0)), 0
+    nd = 2 if r < .85 else 3
+    k = rng.randrange(nd)
+    degs, kvs, sizes = [], [], []
+    for i in range(nd):
+        p = rng.randint(1, 3 if nd == 2 else 2)
+        if i == k:
+            kv, n = G.knots_empty_last(rng, p)
+        else:
+            kv, n = G.knots(rng, p, max_interior=2 if nd == 2 else 1, allow_range=False, clamped=rng.random() < .7)
+        degs.append(p); kvs.append(kv); sizes.append(n)
+    tot = 1
+    for n in sizes:
+        tot *= n
+    P = G.points(rng, tot, 3)
+    if rat:
+        P = G.homogeneous(P, G.weights(rng, tot))
+    if nd == 2:
+        return dict(kind='surface', rat=rat, pu=degs[0], pv=degs[1], kvu=kvs[0], kvv=kvs[1], su=sizes[0], sv=sizes[1], P=P, dim=3), k
+    return dict(kind='volume', rat=rat, pu=degs[0], pv=degs[1], pw=degs[2], kvu=kvs[0], kvv=kvs[1], kvw=kvs[2],
+                su=sizes[0], sv=sizes[1], sw=sizes[2], P=P, dim=3), k
+
+
+def _oracle_end_left_limit(c):
+    """at the end of a domain whose last span is empty the value is the Cox-de Boor left limit (points: S.eval_ref; first
+    derivatives: the polynomial of the last non-empty span, jets.py); every entry point, and the sampled grid"""
+    import itertools
+    import jets as J
+    d = c.data['shape']; ps = c.data['params']
+    o = S.build(d)
+    want = S.eval_ref(d, ps)
+    try:
+        got = _eval(o, d, ps, 'single')
+    except Exception as e:
+        return "evaluate_single%s at the end of a domain with an empty last span raised %s (the Cox-de Boor left-limit value is %s)" % (
+            tuple(map(fr, ps)), type(e).__name__, show_list(want))
+    if list(got) != want:
+        return "evaluate_single%s = %s at the end of a domain with an empty last span, the left limit is %s" % (tuple(map(fr, ps)), show_list(got), show_list(want))
+    qp = [q(x) for x in ps]
+    if list(o.evaluate_list([qp[0]] if d['kind'] == 'curve' else [tuple(qp)])[0]) != want:
+        return "evaluate_list differs from the left-limit value at %s" % (tuple(map(fr, ps)),)
+    if d['kind'] == 'curve':
+        ders = o.derivatives(qp[0], 1)
+        ref = J.curve_ders(d, ps[0], 1)
+        if [list(x) for x in ders] != ref:
+            return "derivatives(order=1) at the domain end %s is %s, the last non-empty span's polynomial gives %s" % (fr(ps[0]), show_pts(ders), show_pts(ref))
+    elif d['kind'] == 'surface':
+        ders = o.derivatives(qp[0], qp[1], 1)
+        ref = J.surface_ders(d, ps[0], ps[1], 1)
+        for a in range(2):
+            for b in range(2 - a):
+                if list(ders[a][b]) != ref[a][b]:
+                    return "derivatives(order=1)[%d][%d] at %s is %s, the last non-empty span's polynomial gives %s" % (
+                        a, b, tuple(map(fr, ps)), show_list(ders[a][b]), show_list(ref[a][b]))
+    # the sampled grid ends at U_n in every direction
+    ds = S.dirs(d)
+    if all(0 < (kv[n] - kv[p]) / sz < 1 for (p, kv, n), sz in zip(ds, c.data['sizes'])) and all(S.unit_range(kv) or True for (_, kv, _) in ds):
+        o2 = S.build(d)
+        sizes = c.data['sizes']
+        _set_sizes(o2, d, sizes)
+        try:
+            pts = o2.evalpts
+        except Exception as e:
+            return "evalpts on a domain with an empty last span raised %s" % type(e).__name__
+        tot = 1
+        for s_ in sizes:
+            tot *= s_
+        if len(pts) == tot:        # (another count: the recorded finding F-01 on un-normalised ranges, judged by the grid stream)
+            params = [[kv[p] + (kv[n] - kv[p]) * F(i, sz - 1) for i in range(sz)] for (p, kv, n), sz in zip(ds, sizes)]
+            for idx, combo in enumerate(itertools.product(*params)):
+                w2 = S.eval_ref(d, list(combo))
+                if list(pts[idx]) != w2:
+                    return "grid point %d (parameters %s) is %s, the definition (left limit at the end) gives %s" % (
+                        idx, tuple(map(fr, combo)), show_list(pts[idx]), show_list(w2))
+    return None
 
 
 def _set_sizes(o, d, sizes, first=None):
@@ -158,6 +272,8 @@ def impl(c):
 
 
 def oracle(c):
+    if c.kind == 'end-left-limit':
+        return _oracle_end_left_limit(c)
     d = c.data.get('shape')
     o = S.build(d) if d else None
     if c.kind in ('single', 'list', 'ders0'):
